@@ -183,6 +183,8 @@ def interleaved_generators(ctx, rng):
         for nm in names:
             scripts[nm] = [('%s#%d;' % (nm, j)).encode() for j in range(r.randint(0, 4))]
             dev.shell_scripts[b'shell:' + nm.encode()] = scripts[nm]
+            if r.random() < 0.3:
+                dev.zero_dest[b'shell:' + nm.encode()] = r.choice(['a0', 'a1'])     # a legacy adbd service: its data packets carry one zero id
         for j in range(nabandon):
             dev.shell_scripts[b'shell:ab%d' % j] = [b'x']
         dev.service_for = lambda dest, d: (simdev.ShellService([b'x'], close=False) if dest.startswith(b'shell:ab') else None)
